@@ -63,6 +63,9 @@ func memGen(prop string) func(rng *core.Rng, tier string) *harness.Plan {
 			} else if prop == "C28" || prop == "C29" {
 				kinds = append(kinds, "custodian")
 			}
+			if mint && prop != "C34" && i > 0 {
+				kinds = append(kinds, "mint") // late histories can mint (the rig manufactures the work and space records first)
+			}
 			op := harness.Op{Kind: "mem." + kinds[rng.IntN(len(kinds))], A: int64(rng.IntN(1000)), N: rng.IntN(9), S: fmt.Sprint("m", i)}
 			p.Ops = append(p.Ops, op)
 		}
